@@ -356,6 +356,10 @@ fn eval_size(out: &mut Out, rng: &mut Rng, n: u64) {
         if let Ok(l) = Layout::from_size_align(size as usize, align as usize) {
             let r = catch(|| c.calc_hint_from_capacity(l));
             out.line(&format!("calc_hint_from_capacity {ca} {size} {align}"), &show_m(r, |r| show_opt(r, |x| format!("{x}"))));
+            // direct oracle: the real function vs the wide-integer specification of the hint
+            if let Some(Some(x)) = r {
+                out.line(&format!("spec_hint_from_capacity {} {} {} {size} {align}", up as u8, h.size(), h.align()), &format!("{x}"));
+            }
         }
         let bytes = if rng.chance(1, 4) { MAX - rng.below(5000) } else { size };
         let r = catch(|| c.calc_hint_from_capacity_bytes(bytes as usize));
